@@ -329,3 +329,21 @@ package queue
 //@     invariant (p >= 0 && !succ ==> q.items[nH+p] == old(q.items)[p] && forall(j, nH+p+1, nH+p+1+nA, q.items[j] == old(taskRes.AfterTasks)[j-(nH)-p-1]) && forall(j, nH+p+1+nA, nH+n+nA, q.items[j] == old(q.items)[j-(nH)-nA]))
 //@     invariant (p >= 0 && succ ==> forall(j, nH+p, nH+p+nA, q.items[j] == old(taskRes.AfterTasks)[j-(nH)-p]) && forall(j, nH+p+nA, nH+n-1+nA, q.items[j] == old(q.items)[j-(nH)-nA+1]))
 //@     invariant forall(j, nH+L, nH+L+iter(), q.items[j] == old(taskRes.TailTasks)[j-nH-L])
+
+// ---- C17 / C03: handing out the next task ---------------------------------------------------
+
+//@ trusted func (*TaskQueue).SetStatus
+//@   modifies q.Status
+//@ trusted func (*TaskQueue).GetStatus
+//@   modifies q.measureActionFn
+
+// C17: a task is handed out only after the context has been checked (non-blocking) with no
+// blocking wait in between; a cancelled context observed by a select yields nil.
+// C03: what is handed out is the head of the queue (GetFirst's atomic contract).
+//@ func (*TaskQueue).waitForTask
+//@   prop C17, C03
+//@   requires q.ctx != nil
+//@   modifies q.items, q.measureActionFn, q.Status, q.waitInProgress, q.cancelDelay
+//@   ensures [fresh-check] result != nil ==> ctxfresh()
+//@   loop 1
+//@     invariant true
